@@ -187,6 +187,9 @@ class pointwise_aggregates {
                 ptrdiff_t id = aggr.id[i];
                 if (id != removed) aggr.id[i] = count[id];
             }
+
+            // Every aggregate was too small: there is nothing to coarsen to.
+            if (!aggr.count) throw error::empty_level();
         }
 };
 
